@@ -292,7 +292,8 @@ def gen_case(rng, nodup=None, back=None):
         "source": main,
         "partials": partials,
         "extra": True,
-        "flags": {"ternary_expressions": True} if g.ternary else {},
+        # back references make recursive partial graphs: keep the render's recursion (and its fan-out) small
+        "flags": dict({"ternary_expressions": True} if g.ternary else {}, **({"context_depth_limit": 4, "loop_iteration_limit": 200} if back else {})),
         "mode": rng.choice(["strict", "lax", "lax"]),
         "name": rng.choice(["", "", "main"]),
         "runs": runs,
